@@ -54,13 +54,14 @@ Definition sym_tol (sname : string) (aq : option Q) (size : Z) : Q :=
     end
   else base.
 
-(* the constant of the overlap-add sum with m = size/hop overlapping copies (None: nothing is promised) *)
+(* the constant of the overlap-add sum with m = size/hop overlapping copies (None: nothing is promised):
+   hann m/2 and hamming 0.54 m for m >= 2 (the property text names m = 2 and m = 4), bartlett 1 for m = 2,
+   rect m, blackman m (1 - alpha)/2 for m >= 3 (the text names m = 4) *)
 Definition cola_const (sname : string) (m : Z) (aq : option Q) : option Q :=
-  if String.eqb sname "hann" then (if (m =? 2)%Z then Some 1%Q else if (m =? 4)%Z then Some 2%Q else None)
-  else if String.eqb sname "hamming" then
-    (if (m =? 2)%Z then Some (108 # 100)%Q else if (m =? 4)%Z then Some (216 # 100)%Q else None)
+  if String.eqb sname "hann" then (if (2 <=? m)%Z then Some (inject_Z m / 2)%Q else None)
+  else if String.eqb sname "hamming" then (if (2 <=? m)%Z then Some (inject_Z m * (54 # 100))%Q else None)
   else if String.eqb sname "bartlett" then (if (m =? 2)%Z then Some 1%Q else None)
   else if String.eqb sname "rect" then (if (1 <=? m)%Z then Some (inject_Z m) else None)
   else if String.eqb sname "blackman" then
-    (if (m =? 4)%Z then match aq with Some a => Some (2 * (1 - a))%Q | None => None end else None)
+    (if (3 <=? m)%Z then match aq with Some a => Some (inject_Z m * ((1 - a) / 2))%Q | None => None end else None)
   else None.
